@@ -743,10 +743,10 @@ class int_eq_comparison_macro(Macro):
 class int_norm_eq(Conv):
     """Prove two linear equations are equal."""
     def get_proof_term(self, t):
-        if not t.is_int():
-            raise ConvException("%s should be an integer term")
         if not t.is_equals():
             raise ConvException("%s must be an equality." % str(t))
+        if not t.lhs.is_int():
+            raise ConvException("%s should be an equality between integer terms" % str(t))
         pt = refl(t)
         pt1 = pt.on_rhs(
             rewr_conv('int_sub_move_0_r', sym=True),
